@@ -12,6 +12,8 @@ impl StateMachine<'_> {
         if !self.test_diff_header_diff_line() {
             return Ok(false);
         }
+        // A conflict region which the previous file section left open ends here.
+        self.handle_unterminated_merge_conflict()?;
         self.painter.paint_buffered_minus_and_plus_lines();
         self.state =
             if self.line.starts_with("diff --cc ") || self.line.starts_with("diff --combined ") {
